@@ -18,10 +18,12 @@ META = {
                  "with the real classes on boundary grids",
     "design_ref": "DESIGN.md §5 C12",
     "text": "Theorems quantify over all reals / all lists; they are about GenSemirings.v, which gen/c12_semiring.py "
-            "regenerates from the current problog/evaluator.py.  The tie runs every translated method of "
-            "SemiringProbability/SemiringLogProbability/SemiringSymbolic on grids around 0, 1 and every threshold and "
+            "regenerates from the current problog/evaluator.py and problog/tasks/mpe.py.  The tie runs every translated "
+            "method of SemiringProbability/SemiringLogProbability/SemiringSymbolic on grids around 0, 1 and every threshold and "
             "compares with the Coq evaluation of the same generated definitions (exact rationals; ln/exp kept "
-            "symbolic in Coq and evaluated to 50 digits by the harness).",
+            "symbolic in Coq and evaluated to 50 digits by the harness); SemiringMPEState/SemiringMinPEState (pairs of a "
+            "probability and a set of literal keys) likewise on a grid of states including ties of the probabilities "
+            "(max-times laws on the probability component, witness of plus/times, link to the C20 hand model).",
     "note": "Trusted: Coq kernel + vm_compute; stdlib real-number axioms; translator gen/c12_semiring.py (unverified, "
             "fail-closed, exercised by the grid); IEEE rounding is not modelled beyond the 1e-12 enclosure check.",
 }
@@ -30,7 +32,7 @@ K_ISONE = "is-one-compares-with-bound-method"
 K_SYMNORM = "symbolic-normalize-unparenthesised"
 
 HEADER = """From Coq Require Import ZArith QArith String List Bool.
-From PL.C12 Require Import ModelPy GenSemirings.
+From PL.C12 Require Import ModelPy ModelPySet GenSemirings.
 Import ListNotations.
 Open Scope string_scope.
 """
@@ -710,6 +712,190 @@ def run_symbolic(ctx, n, model_ok=True):
         ctx.broken.append("correspondence:GenSemirings sym_%s%r vs SemiringSymbolic gives %r" % metas[i])
 
 
+# ------------------------------------------------------------------ state semirings (problog/tasks/mpe.py)
+def st_term(a):
+    """Python state (float, set of ints) -> Coq term of type qfl * list Z."""
+    p, s = a
+    return "(%s, %s)" % (qv(p), zs_term(s))
+
+
+def zs_term(s):
+    return "(@nil Z)" if not s else vf.coq_list([vf.coq_Z(k) for k in sorted(s)])
+
+
+def is_state(v):
+    return isinstance(v, tuple) and len(v) == 2 and isinstance(v[0], float) and isinstance(v[1], (set, frozenset)) \
+        and all(isinstance(k, int) and not isinstance(k, bool) for k in v[1])
+
+
+def state_grid(rng, extra):
+    probs = [0.0, 1.0, 0.5, 0.25, 0.75, 0.3, 0.1, 1.0 / 3, 0.7, 1e-12, 1.0 - 1e-12, 0.125, 2.0]
+    for _ in range(extra):
+        probs.append(rng.random())
+    sets = [set(), {1}, {-1}, {2}, {1, 2}, {2, -3}, {1, -1}, {5, 4, -2}, {-2, 3, 7, -9}]
+    states = []
+    for p in probs:
+        for s in rng.sample(sets, 3) + [set()]:
+            if (p, frozenset(s)) not in [(q, frozenset(t)) for q, t in states]:
+                states.append((p, set(s)))
+    return probs, sets, states
+
+
+def tie_state(ctx, sr_cls, prefix, npairs, nlists):
+    """Every translated method of SemiringMPEState / SemiringMinPEState: the real class in Python, the generated
+    definitions evaluated by Coq (QE instance).  Pairs include ties of the probabilities with different witness
+    sets, in both argument orders.  Returns (bool terms, metas, tie observations)."""
+    from problog.logic import Constant
+    sr = sr_cls()
+    rng = ctx.rng
+    probs, sets, states = state_grid(rng, ctx.n(4, 30))
+    terms, metas = [], []
+    tol_rel = Fraction(1, 10 ** 12)
+
+    def tol_of(v):
+        return qq(tol_rel * max(1, abs(Fraction(v))) if not (math.isinf(v) or math.isnan(v)) else tol_rel)
+
+    def add(method, args, argterms, out):
+        call = " ".join(["(%s_%s QEops" % (prefix, method)] + argterms) + ")"
+        key = (prefix, method, repr([(a[0], sorted(a[1])) if is_state(a) else a for a in args]))
+        ctx.case(key, bool(args), sample={"semiring": prefix, "method": method, "args": repr(args), "impl": repr(out)})
+        ctx.count("%s.%s" % (prefix, method))
+        if out[0] == "raise":
+            if out[1] not in EXN:
+                ctx.broken.append("correspondence:%s.%s%r raised %s (outside the model's exception space)" % (prefix, method, args, out[1]))
+                return
+            t = "raises %s %s" % (call, EXN[out[1]])
+        elif isinstance(out[1], bool):
+            t = "res_bool_eqb %s (Ok %s)" % (call, vf.coq_bool(out[1]))
+        elif isinstance(out[1], float):
+            t = "res_close %s %s (Ok %s)" % (tol_of(out[1]), call, qv(out[1]))
+        elif is_state(out[1]):
+            t = "st_close %s %s %s %s" % (tol_of(out[1][0]), call, qv(out[1][0]), zs_term(out[1][1]))
+        elif isinstance(out[1], tuple) and len(out[1]) == 2 and all(is_state(x) for x in out[1]):
+            (p, s), (q, u) = out[1]
+            t = ("match %s with Ok ((x, s), (y, u)) => fl_close (0#1) x %s && zs_eqb s %s && fl_close (0#1) y %s && zs_eqb u %s "
+                 "| _ => false end" % (call, qv(p), zs_term(s), qv(q), zs_term(u)))
+        else:
+            ctx.broken.append("correspondence:%s.%s%r returned %r (outside the model's value space)" % (prefix, method, args, out))
+            return
+        terms.append(t)
+        metas.append((method, args, out))
+
+    for a in states:
+        for m in ("is_one", "is_zero", "in_domain", "negate", "result"):
+            add(m, [a], [st_term(a)], run_impl(getattr(sr, m), a))
+    for p in probs:
+        c = Constant(p)
+        fp = float(c)
+        add("value", [fp], [qv(fp)], run_impl(sr.value, c))
+        for k in (1, 7, 12):
+            add("pos_value", [fp, k], [qv(fp), vf.coq_Z(k)], run_impl(sr.pos_value, c, k))
+            add("neg_value", [fp, k], [qv(fp), vf.coq_Z(k)], run_impl(sr.neg_value, c, k))
+    pairs = []
+    # ties of the probability component with different witnesses, both orders; the zero/one constants
+    for p in probs[:9]:
+        for s, u in (({1}, {-1}), ({-1}, {1}), (set(), {2, -3}), ({2, -3}, set()), ({1, 2}, {2, -3})):
+            pairs.append(((p, set(s)), (p, set(u))))
+    core = states[:10]
+    pairs += [(a, b) for a in core for b in core]
+    for _ in range(npairs):
+        pairs.append((rng.choice(states), rng.choice(states)))
+    pairs += [(sr.zero(), a) for a in states[:12]] + [(a, sr.zero()) for a in states[:12]]
+    pairs += [(sr.one(), a) for a in states[:12]] + [(a, sr.one()) for a in states[:12]]
+    tie_first = tie_second = 0
+    for a, b in pairs:
+        a, b = (a[0], set(a[1])), (b[0], set(b[1]))
+        for m in ("plus", "times", "normalize"):
+            add(m, [a, b], [st_term(a), st_term(b)], run_impl(getattr(sr, m), a, b))
+        out = run_impl(sr.plus, a, b)
+        if a[0] == b[0] and a[1] != b[1] and out[0] == "ok" and is_state(out[1]) and (prefix == "mpe" or a[0] != 0):
+            if out[1][1] == a[1]:
+                tie_first += 1
+            elif out[1][1] == b[1]:
+                tie_second += 1
+    for a, b in pairs[:30]:
+        add("ad_negate", [a, b], [st_term(a), st_term(b)], run_impl(sr.ad_negate, a, b))
+    for _ in range(nlists):
+        ws = [rng.choice(states) for _ in range(rng.randrange(0, 5))]
+        k = rng.choice([1, 3, 11])
+        add("ad_complement", [ws, k], [vf.coq_list([st_term(w) for w in ws]) if ws else "(@nil (qfl * list Z))", vf.coq_Z(k)],
+            run_impl(sr.ad_complement, ws, k))
+    for m in ("one", "zero", "result_zero", "result_one", "is_dsp", "is_nsp", "true", "false"):
+        add(m, [], [], run_impl(getattr(sr, m)))
+    return terms, metas, (tie_first, tie_second)
+
+
+def judge_state_semiring(ctx, n):
+    """Max-times laws of SemiringMPEState on the real class, against exact rationals (independent of Coq):
+    plus = the argument with the larger probability (tie: one of the two arguments' witnesses), times = product and union,
+    commutative/associative/idempotent/distributive on the probability component, zero/one neutral, documented defaults."""
+    try:
+        from problog.tasks.mpe import SemiringMPEState
+    except Exception as e:  # noqa
+        ctx.broken.append("correspondence:problog.tasks.mpe.SemiringMPEState cannot be imported (%s)" % type(e).__name__)
+        return
+    S = SemiringMPEState()
+    rng = ctx.rng
+    special = [0.0, 1.0, 0.5, 0.25, 0.3, 1e-9, 1.0 / 3]
+    keysets = [set(), {1}, {-1}, {1, 2}, {2, -3}, {4, 5, -6}]
+    tol = Fraction(1, 10 ** 9)
+
+    def pick():
+        p = rng.choice(special) if rng.random() < 0.5 else rng.random()
+        return (p, set(rng.choice(keysets)))
+
+    def prob(r):
+        return Fraction(r[1][0]) if r[0] == "ok" and is_state(r[1]) else None
+
+    def bad(what, a, b, c, got, want):
+        ctx.violation("SemiringMPEState %s: a=%r b=%r c=%r gives %r, expected %s" % (what, a, b, c, got, want),
+                      {"law": what, "a": repr(a), "b": repr(b), "c": repr(c), "got": repr(got)},
+                      klass="mpe-semiring-law-" + what.replace(" ", "-"))
+
+    for _ in range(n):
+        a, b, c = pick(), pick(), pick()
+        if rng.random() < 0.3:
+            b = (a[0], b[1])          # tie of the probabilities
+        fa, fb, fc = Fraction(a[0]), Fraction(b[0]), Fraction(c[0])
+        ctx.case(("mpe-laws", a[0], sorted(a[1]), b[0], sorted(b[1]), c[0], sorted(c[1])), True)
+        ctx.count("mpe law triples")
+        ab, ba = run_impl(S.plus, a, b), run_impl(S.plus, b, a)
+        for what, got in (("plus", ab), ("plus comm", ba)):
+            if prob(got) != max(fa, fb):
+                bad(what, a, b, c, got, "probability %s" % float(max(fa, fb)))
+        if prob(ab) is not None:
+            w = ab[1][1]
+            want_w = [a[1]] if fa > fb else [b[1]] if fb > fa else [a[1], b[1]]
+            if w not in want_w:
+                bad("plus witness", a, b, c, ab, "the witness of the argument with the larger probability")
+        if run_impl(S.plus, a, a) != ("ok", a):
+            bad("plus idempotent", a, a, c, run_impl(S.plus, a, a), repr(a))
+        l = run_impl(lambda: S.plus(S.plus(a, b), c))
+        r = run_impl(lambda: S.plus(a, S.plus(b, c)))
+        if prob(l) != max(fa, fb, fc) or prob(r) != max(fa, fb, fc):
+            bad("plus assoc", a, b, c, (l, r), "probability %s" % float(max(fa, fb, fc)))
+        t1, t2 = run_impl(S.times, a, b), run_impl(S.times, b, a)
+        for what, got in (("times", t1), ("times comm", t2)):
+            if prob(got) is None or abs(prob(got) - fa * fb) > tol or got[1][1] != (a[1] | b[1]):
+                bad(what, a, b, c, got, "(%s, %r)" % (float(fa * fb), a[1] | b[1]))
+        d1 = run_impl(lambda: S.times(a, S.plus(b, c)))
+        d2 = run_impl(lambda: S.plus(S.times(a, b), S.times(a, c)))
+        for what, got in (("distr", d1), ("distr r", d2)):
+            if prob(got) is None or abs(prob(got) - fa * max(fb, fc)) > tol:
+                bad(what, a, b, c, got, "probability %s" % float(fa * max(fb, fc)))
+        for what, fn, want in (("times one", lambda: S.times(S.one(), a), a), ("times one r", lambda: S.times(a, S.one()), a),
+                               ("plus zero r", lambda: S.plus(a, S.zero()), a)):
+            got = run_impl(fn)
+            if got != ("ok", want):
+                bad(what, a, b, c, got, repr(want))
+        got = run_impl(lambda: S.plus(S.zero(), a))
+        if prob(got) != fa or (fa > 0 and got[1][1] != a[1]):
+            bad("plus zero", a, b, c, got, repr(a))
+        got = run_impl(lambda: S.times(S.zero(), a))
+        if prob(got) != 0:
+            bad("times zero", a, b, c, got, "probability 0")
+
+
 # ------------------------------------------------------------------ main
 def run(ctx):
     ctx.cov["rule"] = ("grids: {0, 1, +-{1,2,5}e-13..e-8 around both, k/16, 1/3, out-of-range values, +-inf} and their logs; "
@@ -743,6 +929,7 @@ def run(ctx):
     judge_laws(ctx, ctx.n(300, 20000))
     judge_log_extremes(ctx, ctx.n(200, 5000))
     run_symbolic(ctx, ctx.n(300, 6000), model_ok=ok)
+    judge_state_semiring(ctx, ctx.n(300, 10000))
     if not ok:
         return
     # ---- float-level tie (needs the generated model)
@@ -762,3 +949,21 @@ def run(ctx):
         for c in bad[:5]:
             ctx.broken.append("correspondence:GenSemirings %s_%s%r: implementation %r, model %s"
                               % (prefix, c["m"], c["args"], c["impl"], c.get("model", "differs")))
+    # ---- state semirings of problog/tasks/mpe.py (translated into the same generated file)
+    from problog.tasks.mpe import SemiringMPEState, SemiringMinPEState
+    for cls, prefix in ((SemiringMPEState, "mpe"), (SemiringMinPEState, "minpe")):
+        ctx.log("tie of", prefix)
+        terms, metas, (first, second) = tie_state(ctx, cls, prefix, ctx.n(60, 1500), ctx.n(20, 300))
+        try:
+            bad = ctx.coq_failing(HEADER, terms, name="tie_%s" % prefix)
+        except RuntimeError as e:
+            ctx.broken.append("correspondence:%s model does not evaluate" % prefix)
+            ctx.notes.append(str(e)[-2000:])
+            continue
+        ctx.cov["%s_model_vs_impl_agree" % prefix] = len(terms) - len(bad)
+        ctx.cov["%s_plus_on_probability_ties" % prefix] = (
+            "%d ties with different witness sets: the FIRST argument's witness was returned in %d, the second's in %d "
+            "(model: first argument, theorem C12_mpe_plus_is_max)" % (first + second, first, second))
+        for i in bad[:5]:
+            ctx.broken.append("correspondence:GenSemirings %s_%s%r: implementation %r, model differs"
+                              % (prefix, metas[i][0], metas[i][1], metas[i][2]))
